@@ -709,3 +709,66 @@ m('c06-order-swapped', ['C06'],
         for elem in marked_time:
             assert not elem.children
             self.refine_time(elem)"""), rule='R-mark')
+
+# ---- C07 ------------------------------------------------------------------
+m('c07-split-schemes-swapped', ['C07'],
+  (SL, """            return self.log_scheme_m.integrate(
+                G_time_parametrized, x_a, x_hat) + self.log_scheme.integrate(
+                    G_time_parametrized, x_hat, x_b)""",
+   """            return self.log_scheme.integrate(
+                G_time_parametrized, x_a, x_hat) + self.log_scheme_m.integrate(
+                    G_time_parametrized, x_hat, x_b)"""), rule='R-grading-end')
+m('c07-nearer-flipped', ['C07'],
+  (SL, "        if d_a <= d_b:\n            xy_sqr", "        if d_a >= d_b:\n            xy_sqr"),
+  rule='R-grading-end')
+m('c07-seam-distance', ['C07'],
+  (SL, "d_a = min(abs(x_hat - x_a), abs(self.gamma_len - x_hat + x_a))",
+   "d_a = min(abs(x_hat - x_a), abs(self.gamma_len - x_hat - x_a))"),
+  rule='R-grading-end')
+m('c07-tail-sign', ['C07'],
+  (SL, "            vec = -FPI_INV * expi(-xy / (4 * (t - t_a)))",
+   "            vec = FPI_INV * expi(-xy / (4 * (t - t_a)))"), rule='K3')
+m('c07-closure-swapped', ['C07'],
+  (SL, """                    return FPI_INV * (expi(-xy / (4 *
+                                                  (t - b))) - expi(-xy /
+                                                                   (4 *
+                                                                    (t - a))))""",
+   """                    return FPI_INV * (expi(-xy / (4 *
+                                                  (t - a))) - expi(-xy /
+                                                                   (4 *
+                                                                    (t - b))))"""),
+  rule='K3')
+m('c07-exact-coef', ['C07'],
+  (SL, "                return -FPI_INV * (PI_SQRT * (2 * sqrt(",
+   "                return -FPI_INV * (PI_SQRT * (sqrt("), rule='K5')
+m('c07-exact-sign', ['C07'],
+  (SL, "(t - a))))) - h * expi(-(h**2 / (4 * (t - a)))) +",
+   "(t - a))))) + h * expi(-(h**2 / (4 * (t - a)))) +"), rule='K5')
+m('c07-exact-minmax', ['C07'],
+  (SL, "            h = min(abs(a - x), abs(b - x))\n            k = max(abs(a - x), abs(b - x))",
+   "            h = max(abs(a - x), abs(b - x))\n            k = min(abs(a - x), abs(b - x))"),
+  rule='K5')
+m('c07-exact-inside', ['C07'],
+  (SL, "                t, *elem_trial.time_interval, x - a) + spacetime_evaluated_1(\n                    t, *elem_trial.time_interval, b - x)",
+   "                t, *elem_trial.time_interval, x - a) + spacetime_evaluated_1(\n                    t, *elem_trial.time_interval, b - a)"),
+  rule='K5')
+m('c07-se1-sign', ['C07'],
+  (SLX, "    if t > b:\n        result -= (2 * sqrt(pi) * sqrt((t - b))",
+   "    if t > b:\n        result += (2 * sqrt(pi) * sqrt((t - b))"), rule='K5')
+m('c07-init-mirror-table', ['C07'],
+  (SL, """            elem.__log_scheme_m_y = elem.gamma_space(a + (b - a) *
+                                                     self.log_scheme_m.points)""",
+   """            elem.__log_scheme_m_y = elem.gamma_space(a + (b - a) *
+                                                     self.log_scheme.points)"""),
+  rule='R-grading-end')
+m('c07-exact-swap-twin', ['C07'],
+  (SL, "            h = min(abs(a - x), abs(b - x))\n            k = max(abs(a - x), abs(b - x))",
+   "            h = min(abs(x - a), abs(x - b))\n            k = max(abs(x - a), abs(x - b))"),
+  expect='silent')
+m('c07-residual-same-piece', ['C07', 'C03'],
+  (EE, "                    if SL_exact_eval and elem_trial.gamma_space is gamma:",
+   "                    if SL_exact_eval:"), rule='R-straight')
+m('c07-revert-f8-residual', ['C07', 'C03'],
+  (EE, """        SL_exact_eval = SL_exact_eval and isinstance(
+            self.bdr_mesh.gamma_space, PiecewisePolygon)
+""", ""), rule='R-straight')
